@@ -701,11 +701,18 @@ func (cfg *Config) wordFields(wps []syntax.WordPart) ([][]fieldPart, error) {
 			s := wp.Value
 			if i == 0 {
 				prefix, rest := cfg.expandUser(s, len(wps) > 1)
-				curField = append(curField, fieldPart{
-					quote: quoteSingle,
-					val:   prefix,
-				})
+				if prefix != "" {
+					curField = append(curField, fieldPart{
+						quote: quoteSingle,
+						val:   prefix,
+					})
+				}
 				s = rest
+			}
+			if s == "" {
+				// An empty unquoted literal, such as the first word resulting
+				// from {,x}, must not result in an empty field.
+				continue
 			}
 			if strings.Contains(s, "\\") {
 				sb := cfg.strBuilder()
